@@ -26,7 +26,7 @@ from vcheck import fmt_q, fmt_vec, fmt_crs, split_top
 import gen
 from props.common import diff_run, oracle_run, account
 
-DRIVERS = ["sched"]
+DRIVERS = ["sched", "matops_block"]
 MODEL = "sched"
 RULE = ("cases derived from VERIF_SEED by tools/props/C09.py; distinct = distinct (op, payload); non-trivial = "
         "schedule dumps with at least two levels or a level split over >= 2 threads, sweeps/kernels with a non-zero result")
@@ -501,6 +501,45 @@ def classify(f):
 
 
 # ------------------------------------------------------------------ run
+def block_product_stage(ctx):
+    """matrix products with NON-COMMUTING block values across the 16/17-thread algorithm switch
+    (spgemm_saad <= 16 threads, spgemm_rmerge above): exact arithmetic (static_matrix<vq::Q,b,b>), so the
+    product must be IDENTICAL for every thread count (rows sorted: product(sort=true) / rmerge output).
+    Driver: harness/drv_matops_block.cpp of C08 (op bm.product <b> <nt> A B sort)."""
+    import props.blockvals as bv
+    r = random.Random(ctx["seed"] * 7919 + 17)
+    fails = []; lines = []; base = {}
+    n_cases = 40 if ctx["tier"] == "quick" else 300
+    nts = [1, 2, 16, 17, 32] if ctx["tier"] == "quick" else [1, 2, 3, 4, 5, 8, 16, 17, 24, 32]
+    for it in range(n_cases):
+        b = r.choice([2, 2, 3]); n = r.randint(2, 9); k = r.randint(1, 9); m = r.randint(1, 9)
+        A = bv.rbcrs(r, b, n, k, density=r.choice([0.2, 0.4]), dups=False)
+        B = bv.sorted_distinct(bv.rbcrs(r, b, k, m, density=r.choice([0.2, 0.4]), dups=False), b)
+        for nt in nts:
+            lines.append("bp%d.%d bm.product %d %d %s %s 1" % (it, nt, b, nt, bv.fmt_bcrs(n, k, A), bv.fmt_bcrs(k, m, B)))
+    out = {}
+    for nt in nts:   # the driver insists that the thread count named in the case is the one it runs with
+        ls = [l for l in lines if l.split(" ", 1)[0].endswith(".%d" % nt)]
+        out.update(ctx["run_driver"](ctx["cpp"]["matops_block"], ls, env_extra={"OMP_NUM_THREADS": str(nt), "OMP_WAIT_POLICY": "passive"},
+                                     shards=(8 if nt <= 2 else 2)))
+    st = ctx["stats"]
+    for l in lines:
+        cid = l.split(" ", 1)[0]; it, nt = cid[2:].split(".")
+        o = out.get(cid)
+        st["evaluations"] += 1; st["by_op"]["bm.product@threads"] = st["by_op"].get("bm.product@threads", 0) + 1
+        if o is not None and not o.startswith(("EXC", "CRASH", "UNSUPPORTED")): st["nontrivial"] += 1
+        if nt == "1": base[it] = (o, l); continue
+        st["oracle_checks"] += 1
+        if o != base[it][0]:
+            st["mismatches"] += 1
+            fails.append(dict(kind="counterexample", case=l, impl=o, model=base[it][0], op="bm.product", size=len(l), stage="block-product",
+                              case_lines=[base[it][1], l],
+                              theorem="C09: block-valued matrix product identical for every thread count (exact arithmetic; "
+                                      "C08_nc_product_algorithms_agree / C08_nc_product_dense_all_thread_counts): %s threads vs 1 thread" % nt))
+    return fails
+
+
+
 def run(ctx, cases_override=None):
     lines = cases_override or cases(ctx["tier"], ctx["seed"])
     fails = []
@@ -700,4 +739,18 @@ def run(ctx, cases_override=None):
                 ctx["stats"]["mismatches"] += 1
                 fails.append(dict(kind="counterexample", case=l, impl=outk.get(cid), model=mo.get(cid), op=op, size=len(l),
                                   theorem="kernel at a thread count = Coq model (Kernels.v / MatOps.v)"))
+    if not cases_override:
+        fails += block_product_stage(ctx)
+    else:
+        bl = [l for l in cases_override if l.split(" ", 2)[1] == "bm.product"]
+        if len(bl) >= 2:
+            out = {}
+            for l in bl:
+                out.update(ctx["run_driver"](ctx["cpp"]["matops_block"], [l], env_extra={"OMP_NUM_THREADS": l.split(" ", 4)[3], "OMP_WAIT_POLICY": "passive"}, shards=1))
+            ref = out.get(bl[0].split(" ", 1)[0])
+            for l in bl[1:]:
+                o = out.get(l.split(" ", 1)[0])
+                if o != ref:
+                    fails.append(dict(kind="counterexample", case=l, impl=o, model=ref, op="bm.product", size=len(l), case_lines=bl,
+                                      theorem="C09: block-valued matrix product identical for every thread count"))
     return fails
